@@ -238,7 +238,8 @@ class Scenario:
                 (d / f'f{j}').write_bytes(content())
             if rng.random() < 0.5:
                 # names that are not ASCII / not even valid UTF-8 (a Latin-1 byte, a lone continuation byte)
-                for raw in rng.sample([b'caf\xe9.txt', 'na\u00efve \u6f22\u5b57.bin'.encode(), b'track-\xed\xb2\x80.dat', b'x\x80y'], 2):
+                for raw in rng.sample([b'caf\xe9.txt', 'na\u00efve \u6f22\u5b57.bin'.encode(), b'track-\xed\xb2\x80.dat', b'x\x80y',
+                                       'de\u0301compose\u0301.txt'.encode(), '\u212b.dat'.encode()], 2):
                     Path(os.fsdecode(os.fsencode(str(d)) + b'/' + raw)).write_bytes(content())
             if rng.random() < 0.5:
                 # names that mean something to the tool's own storage layer (temporary suffix, area names): in a SOURCE tree they are files
